@@ -151,3 +151,64 @@ mod tests {
         assert!(bad.is_empty());
     }
 }
+
+/// (file, description, geometry, expected validity) from the JTS TestValid*.xml files (integer coordinates only)
+pub fn load_valid_cases(dir: &std::path::Path) -> Vec<(String, String, G, bool)> {
+    let mut out = vec![];
+    for name in ["TestValid.xml", "TestValid2.xml"] {
+        let Ok(txt) = std::fs::read_to_string(dir.join(name)) else { continue };
+        for case in txt.split("<case>").skip(1) {
+            let tag = |t: &str| -> Option<String> {
+                let a = case.find(&format!("<{t}>"))? + t.len() + 2;
+                let b = case.find(&format!("</{t}>"))?;
+                Some(case[a..b].trim().to_string())
+            };
+            let Some(a) = tag("a") else { continue };
+            let Some(g) = parse_wkt(&a) else { continue };
+            let desc = tag("desc").unwrap_or_default();
+            for op in case.split("<op ").skip(1) {
+                if op.starts_with("name=\"isValid\"") {
+                    let body = &op[op.find('>').map(|i| i + 1).unwrap_or(0)..];
+                    let want = body.trim_start().starts_with("true");
+                    out.push((name.to_string(), desc.clone(), g.clone(), want));
+                }
+            }
+        }
+    }
+    out
+}
+
+#[cfg(test)]
+mod valid_tests {
+    use super::*;
+    use crate::refgeom::validity::{mpoly_report, poly_report};
+    #[test]
+    fn validity_model_agrees_with_jts_valid_files() {
+        let cases = load_valid_cases(std::path::Path::new("/repo/jts-test-runner/resources/testxml/general"));
+        let mut n = 0;
+        let mut bad = vec![];
+        for (f, d, g, want) in &cases {
+            let got = match g {
+                G::Polygon(p) => {
+                    if p.is_empty() { continue }
+                    poly_report(p).valid_ogc()
+                }
+                G::MultiPolygon(v) => {
+                    if v.iter().all(|p| p.is_empty()) { continue }
+                    v.iter().all(|p| poly_report(p).valid_ogc()) && mpoly_report(v).valid()
+                }
+                _ => continue,
+            };
+            n += 1;
+            if got != *want {
+                bad.push(format!("{f}: {d}: model {got} JTS {want}: {}", crate::conv::wkt(g)));
+            }
+        }
+        eprintln!("{n} JTS validity cases (polygonal, integer coordinates), {} disagreements", bad.len());
+        for b in &bad {
+            eprintln!("  {}", &b[..b.len().min(400)]);
+        }
+        assert!(n >= 50, "only {n} cases");
+        assert!(bad.is_empty());
+    }
+}
